@@ -36,6 +36,7 @@
 import JdProofs.EqualsList
 import JdProofs.EqualsSet
 import JdProofs.OptSites
+import JdProps.C01Precision
 
 namespace Jd.Props.C04
 open Jd Jd.Spec
